@@ -511,6 +511,11 @@ func lemmaHeaderRoundTrip(f *TimeBucketInfo) {
 //@ trusted "the ordered column names"
 //@ pure
 
+//@ func (*ColumnSeries).Exists
+//@ props C20 C13
+//@ pure
+//@ ensures #member: result == in(targetName, cs.columns)
+
 //@ func (*ColumnSeries).GetColumn
 //@ props C20 C13
 //@ pure
